@@ -48,6 +48,7 @@ type raftRun struct {
 	poolUse int
 	cl      *Cluster
 	pre     *Inst // standalone instance used to pre-flight dispatch invocations
+	preDirs []string
 	table   map[string]internal.Command
 	timing  string
 }
@@ -575,6 +576,7 @@ func (r *raftRun) preflight(cmd []string) (string, error) {
 		if err != nil {
 			return "", err
 		}
+		r.preDirs = append(r.preDirs, dir)
 		in, err := NewInst(Opts{DataDir: dir})
 		if err != nil {
 			return "", err
@@ -967,6 +969,9 @@ func RunRaft(w *bufio.Writer, seed int64, tier string, replay string) (err error
 		}
 		for _, n := range r.pool {
 			n.Shutdown()
+		}
+		for _, d := range r.preDirs {
+			os.RemoveAll(d)
 		}
 	}()
 	if replay != "" {
